@@ -523,6 +523,10 @@ func crossGenFiles() map[string]string {
 		// an exec directive whose target has a quoted executable (a path with a blank)
 		"zz-vgen-hist-quoted":     pre("zz-vgen-hist-quoted", "@{exec_path} = /opt/vgen/plainexe \"/opt/Vgen App/vgen-app\"\n", "@{exec_path} ", "  /etc/hist r,\n"),
 		"gg-vgen-hist-execquoted": mk("gg-vgen-hist-execquoted", "  /etc/host9 r,\n\n  #aa:exec zz-vgen-hist-quoted\n"),
+		// a profile whose name holds a character that means something in a regular expression (dvd+rw-format, notepad++)
+		"zz-vgen-hist+plus":      mk("zz-vgen-hist+plus", "  /etc/plus r,\n  /usr/bin/plusexec rPx,\n"),
+		"gg-vgen-hist-execplus":  mk("gg-vgen-hist-execplus", "  /etc/host10 r,\n\n  #aa:exec zz-vgen-hist+plus\n"),
+		"hh-vgen-hist-stackplus": mk("hh-vgen-hist-stackplus", "  /etc/host11 r,\n\n  #aa:stack zz-vgen-hist+plus\n"),
 		// exec directives: default, explicit and two-target forms over the same targets
 		"aa-vgen-hist-exec1": mk("aa-vgen-hist-exec1", "  #aa:exec zz-vgen-hist-uselib\n"),
 		"bb-vgen-hist-exec2": mk("bb-vgen-hist-exec2", "  #aa:exec U zz-vgen-hist-uselib\n\n  /etc/between r,\n"),
